@@ -147,6 +147,45 @@ def golden_objects(ctx, root):
                      'under the earlier key are orphaned', case, {'now': got, 'reference': line['expect']})
 
 
+# ---------------------------------------------------------------------------------- values a JSON file cannot hold (YAML / Config(data=…))
+REPR_LITERALS = [
+    "{1: 'a', 2: 'b', 3: 'c', 10: 'd'}", "{10: 0, 9: 1, 100: 2, -1: 3}", "{2: {20: 1, 3: 2}, 11: [ {5: 0, 40: 1} ]}", "{1.5: 'x', 0.25: 'y', 10.0: 'z'}",
+    "{True: 1, False: 0}", "{'b': 1, 'a': 2, 'B': 3, 'a0': 4, 'a-': 5}", "{'10': 1, '9': 2, '1': 3}", "(1, 2, 3)", "(1, (2, 'x'), [3])", "[(1, 2), (3,)]",
+    "{'k': (1, 2)}", "{-3: 'm', 0: 'z', 7: 'p'}", "{100: 'a', 20: 'b', 3: 'c'}", "[{2: 'x', 1: 'y'}, {'2': 'x', '1': 'y'}]", "{1: None, 2: True, 3: 1.0, 4: '1'}",
+    "{'é': 1, 'e': 2, 'z': 3, 'É': 4}", "{'a b': 1, 'a': 2, 'a_b': 3}", "{0: {0: {0: 'deep'}}}", "[[], {}, (), '']", "{'x': [ {3: 1, 1: 3}, {1: 3, 3: 1} ]}",
+    "1e22", "-0.0", "{'f': [1e16, 1.5e-07, 3.0]}", "2 ** 70", "{12: 'a', 111: 'b', 2: 'c', 1: 'd'}",
+]
+
+
+def literal_case(root, lit):
+    """a one-task chain whose parameter `v` is the value of the Python literal -> {repr, key} or {error}"""
+    import shutil
+    from taskchain import Config
+    spec = {'classes': {'K0': {'name': 'o', 'group': '', 'params': [{'name': 'v'}], 'inputs': [], 'kind': 'json', 'run_args': []}}, 'files': {}, 'main': None}
+    b = pl.materialize(spec, root, modname=gen.fresh_modname())
+    try:
+        t = Config(root / 'data', name='c', data={'tasks': [getattr(b.module(), pl.pyname('K0'))], 'v': eval(lit)}).chain().tasks['o']
+        return {'repr': t.params.repr, 'key': t.name_for_persistence}
+    except Exception as e:      # noqa
+        return {'error': f'{type(e).__name__}: {e}'[:200]}
+    finally:
+        b.cleanup_module()
+        shutil.rmtree(root, ignore_errors=True)
+
+
+def golden_reprs(ctx, root):
+    """the parameter text and the key of values that only YAML files or `Config(data=…)` can hold — integer, float, bool keys, tuples — are the
+    ones release 1.4.0 produced (frozen corpus `corpus/c12_reprs.jsonl`, captured from the pinned commit by tools/capture_golden_reprs.py)"""
+    f = VERIF / 'corpus' / 'c12_reprs.jsonl'
+    for k, line in enumerate(json.loads(l) for l in f.read_text().split('\n') if l.strip()):
+        case = {'golden': 'parameter value text', 'literal': line['literal']}
+        ctx.case(case, nontrivial=True); ctx.count('golden-reprs')
+        got = literal_case(root / f'grepr{k}', line['literal'])
+        if got != line['expect']:
+            ctx.fail('the text of a parameter value (hence the key) differs from the reference scheme (release 1.4.0): results stored under the '
+                     'earlier key are orphaned', case, {'now': got, 'reference': line['expect']})
+
+
 def run(ctx, generated_only=False):
     from tcv.quiet import quiet
     quiet()
@@ -232,6 +271,7 @@ def run(ctx, generated_only=False):
         b.cleanup_module()
     if not generated_only:
         golden_objects(ctx, root)
+        golden_reprs(ctx, root)
     # ---- sha256 of the driver vs hashlib
     import hashlib
     texts = [o['text'] for o in out if 'text' in o][:2000]
